@@ -128,6 +128,20 @@ def gen(ctx, q):
             plan.append((len(L), "audio", None))
             L.append("close 0")
             sid = (sid + 1) % 30
+    # the instrument's detune over its whole non-negative range (and two negative values): the WAV smpl chunk stores it as a 32-bit pitch fraction
+    for det in list(range(0, 51)) + [-1, -50]:
+        f = formats.fmt("WAV", "PCM_16")
+        L.append("open 0 %d w %x 1 8000" % (sid, f))
+        L.append("inst 0 set %d %d 0 %d" % (60 + det % 12, det, det % 3))
+        plan.append((len(L), "set", ("inst", None, "WAV")))
+        L.append("w 0 s f 10 1 2 3")
+        L.append("close 0")
+        L.append("open 0 %d r 0 0 0" % sid)
+        plan.append((len(L), "reopen", "WAV"))
+        L.append("inst 0 get")
+        plan.append((len(L), "get", ("inst", "WAV", (60 + det % 12, det, 0, det % 3), False)))
+        L.append("close 0")
+        sid = (sid + 1) % 30
     return "\n".join(L) + "\n", plan
 
 
@@ -247,9 +261,11 @@ def run(ctx):
                 base, det, gain, nl = want
                 if int(d["base"]) != base:
                     bad("%s:instrument_basenote_changed" % mj, ln, "set %d got %s" % (base, d["base"]))
+                if int(d["detune"]) != det:
+                    bad("%s:instrument_detune_%s" % (mj, "negative" if det < 0 else "changed"), ln, "set detune %d got %s" % (det, d["detune"]))
                 loops = [] if d["loops"] == "-" else d["loops"].split(",")
                 exp = ["%d:%d:%d:%d" % (800 + 1 + (i % 3), 2 + 3 * i, 4 + 3 * i, i) for i in range(nl)]
-                if [l.split(":")[1:3] for l in loops] != [e.split(":")[1:3] for e in exp]:
+                if loops != exp:
                     bad("%s:instrument_loops_changed" % mj, ln, "set %s got %s" % (exp, loops))
             elif k == "chmap":
                 if d.get("map") != ",".join(str(x) for x in want):
